@@ -721,9 +721,29 @@ def rule_r9(ctx) -> List[R.Inst]:
             isinstance(key.body.value, ast.Name) and key.body.value.id == key.args.args[0].arg else None
         rev = any(k.arg == "reverse" and not (isinstance(k.value, ast.Constant) and k.value.value is False) for k in c.keywords)
         sorts.append((tgt, katt, rev, n.lineno))
-    good = [s_ for s_ in sorts if s_[0] in derived and s_[1] == "measure" and not s_[2] and s_[3] >= node.lineno]
+    # the sort must reach the swept list: either the swept list itself is sorted (before the sweep), or the list it is filtered
+    # from is sorted BEFORE the filtering statement (a filter takes a snapshot: sorting the source afterwards does not reorder it)
+    deriv_line = {}
+    for n in walk_no_nested(fn.node):
+        if isinstance(n, ast.Assign) and isinstance(n.targets[0], ast.Name) and n.targets[0].id in derived and n.targets[0].id != name:
+            deriv_line[n.targets[0].id] = n.lineno
+    first_sweep = min((x.lineno for x in ast.walk(fn.node) if isinstance(x, (ast.For, ast.While)) and any(
+        isinstance(y, ast.Subscript) and isinstance(y.value, ast.Name) and y.value.id in swept for y in ast.walk(x))), default=10 ** 9)
+
+    def reaches(s_):
+        tgt, _, _, ln = s_
+        if tgt in swept:
+            return ln < first_sweep
+        return all(ln < deriv_line.get(w, 10 ** 9) for w in swept) and ln >= node.lineno
+    good = [s_ for s_ in sorts if s_[0] in derived and s_[1] == "measure" and not s_[2] and reaches(s_)]
+    late = [s_ for s_ in sorts if s_[0] in derived and s_[1] == "measure" and not s_[2] and not reaches(s_)]
     if good:
         return [R.ok(rid, "events-sorted", file, good[0][3], idiom=f"{good[0][0]} sorted by the events' own .measure before the sweep of {swept}")]
+    if late:
+        return [R.viol(rid, "events-sorted", file, late[0][3],
+                       f"'{late[0][0]}' is sorted on line {late[0][3]}, after {swept} was filtered from it (line "
+                       f"{min(deriv_line.get(w, 0) for w in swept)}): the filtered list keeps the file order, the sweep assumes position order",
+                       construct=f"sort of {late[0][0]} after the derivation of {swept}")]
     src = unparse(node.value.generators[0].iter)
     other = [s_ for s_ in sorts if s_[0] == src] or [s_ for s_ in sorts if s_[0] not in derived and s_[3] <= node.lineno]
     return [R.viol(rid, "events-sorted", file, node.lineno,
